@@ -174,7 +174,17 @@ SPEC = dict(
     ],
     assumptions=["no function calls, accesses or nested assignments inside the expression (evaluation has no side effects); an "
                  "assignment elsewhere than `name := <expr>` as the whole program: only the tree is compared",
-                 "string literals contain no {{ }} (interpolation is C14)"],
+                 "string literals contain no {{ }} (interpolation is C14)",
+                 "the tree is validated (Runtime.Validate) before it is evaluated, as the harness and every caller in the "
+                 "repository do: a number literal's value is set in Validate (Eval alone would yield 0)",
+                 "all cases of a shard run in one process with one shared ECALRuntimeProvider",
+                 "declared reading: list elements without commas between them (`[1 2]`, `[a -b]` = one element) are accepted by "
+                 "the parser but not documented; the grammar clause is read over comma-separated lists, the converse theorem "
+                 "covers the comma-less forms (PrintsW), which are ambiguous as writings",
+                 "every TESTED claim (float carrier, like, text forms of values) holds for the generator's operand universe: about "
+                 "45 number texts, 55 string literals (line ends, escapes, UTF-8 included), lists up to 40 elements, plus the "
+                 "metamorphic numeric families (x, x +- 1 ulp, x +- 1e-12, quotients around integers, fractional / negative % "
+                 "operands) and the environments of the multi-evaluation cases"],
     decode=decode,
 )
 
@@ -183,12 +193,12 @@ META = dict(
                "parser.go) and of the operator runtimes + differential correspondence on Runtime.Eval"),
     level_text=("Proof (precedence): for every expression tree of any depth the Pratt loop with the real binding table parses every "
                 "admissible writing of the tree (minimal brackets per the documented grammar, arbitrary redundant ones, the tokens on "
-                "any LINES) back to that tree, and conversely everything it accepts is such a writing of the tree it returns (list "
-                "elements may lack commas); the grammar is unambiguous; fuel never runs out; table facts re-proved by decide on every "
+                "any LINES) back to that tree, and conversely — for token lists of the fragment's alphabet — everything it accepts is such a writing of the tree it "
+                "returns (list elements may lack commas; those writings are not unique); the comma-separated grammar is unambiguous; fuel never runs out; table facts re-proved by decide on every "
                 "run. Proof (semantics): interpreter-style evaluation (helpers, evaluation order, text fallback of comparisons) = "
                 "per-operator reference semantics up to two known findings, for all trees / environments / numeric carriers; wrong-"
                 "kind operands are errors naming the operand; for exact rational arithmetic `//` is the floor of the quotient and `%` "
-                "the truncated remainder. Tested, not proved: the model against the code (~62k quick / ~600k thorough evaluations), "
+                "the truncated remainder. Tested, not proved: the model against the code (measured: ~65k quick / ~750k thorough evaluations, see evaluations), "
                 "IEEE behaviour of the float carrier, whitespace / keyword case / number splitting (Lean lexer model on the model "
                 "side, intended tokens, layout variants against their plain writing on the real code alone)."),
     level_note=("Trusted: Lean kernel + propext/Classical.choice/Quot.sound; the harness and go/ast extractor; the hand-written model "
